@@ -5,7 +5,8 @@
 (* A process holds a pool of live metamodels (slots).  One action per      *)
 (* public call: NewMM (metamodel_from_str), DropMM, LoadStr                *)
 (* (model_from_str), LoadFile (model_from_file), WriteFile (the content of *)
-(* the one mutable file of a grammar directory changes).  The variables    *)
+(* the one mutable model file of a grammar directory changes), WriteDep    *)
+(* (the mutable imported file is broken / repaired).  The variables        *)
 (* are everything that outlives a call and could carry information from    *)
 (* one load to the next:                                                   *)
 (*   gp     textx.lang.textX_parsers: grammar parser cached by debug flag, *)
@@ -17,7 +18,9 @@
 (*          per-parse state (`inst` = names in _instances, `dirty` = other  *)
 (*          fields that are not pristine), the user-class instrumentation   *)
 (*          counter, the global model repository;                          *)
-(*   scratch content of the mutable file of each grammar directory;        *)
+(*   scratch content of the mutable model file of each grammar directory;  *)
+(*   dep    content ("good" / "bad") of the mutable *library* file that     *)
+(*          some inputs import;                                            *)
 (*   n      number of calls so far (names the model a call returned);      *)
 (*   op     the last call with its result  [kind, dig, ident].             *)
 (*                                                                         *)
@@ -39,47 +42,74 @@
 (***************************************************************************)
 EXTENDS Naturals, Sequences, FiniteSets, TLC, Json
 
-CONSTANTS
-  Cfgs,      \* set of configuration names
-  Flag,      \* [cfg -> [grammar, memo, classes, procs, grepo, inst]]
-  Inputs,    \* [grammar -> set of input names]   (each also names an immutable file)
-  WInputs,   \* [grammar -> set of inputs WriteFile may put into the scratch file]
-  Fresh,     \* [cfg -> [input -> [str, file -> [kind, dig, libs]]]]   data, from new interpreters
-  FreshMM,   \* [cfg -> dig]  digest of the metamodel built in a new interpreter
-  Alt,       \* [cfg -> [input -> [kind, dig]]] what the same configuration without a global repository yields (file mode)
-  Nested,    \* [grammar -> [input -> set of library files a scope provider loads as nested main models]]
-  Defs,      \* [grammar -> [input -> set of names the input defines]]
-  Unres,     \* [grammar -> [input -> set of names referenced but not resolvable]]
-  NImp,      \* [grammar -> [input -> number of imported models parsed before reference resolution]]
-  Slots,     \* set of slot numbers 1..N
-  MaxOps,    \* bound on the length of a history (model checking only)
-  Dev,       \* deviation clauses switched on
-  Break      \* seeded breakages switched on (sensitivity of the invariants only)
+CONSTANT Pool
+\* The pool is one record (data; MC_History.tla reads it from a JSON file):
+\*   flag        [cfg -> [grammar, memo, classes, procs, grepo, inst]]
+\*   inputs      [grammar -> Seq of input names]   (each also names an immutable file)
+\*   winputs     [grammar -> Seq of inputs WriteFile may put into the scratch file], winit [grammar -> its initial content]
+\*   depgrammars Seq of grammars whose directory has a mutable library file,
+\*   depname     [grammar -> name of that file as a repository entry]
+\*   fresh       [cfg -> [input -> [str, file -> [good, bad -> [kind, dig, libs]]]]]  from new interpreters,
+\*               per content of the mutable library file
+\*   freshmm     [cfg -> dig]  digest of the metamodel built in a new interpreter
+\*   alt         [cfg -> [input -> [kind, dig]]] what the same configuration without a global repository yields (file mode)
+\*   nested      [grammar -> [input -> Seq of library files a scope provider loads as nested main models]]
+\*   defs, unres [grammar -> [input -> Seq of names the input defines / references but cannot resolve]]
+\*   nimp        [grammar -> [input -> number of imported models parsed before reference resolution]]
+\*   slots       number of slots,  maxops  bound on the length of a history (model checking only)
+\*   dev         Seq of deviation clauses switched on
+\*   brk         Seq of seeded breakages switched on (sensitivity of the invariants only)
 
 Range(q) == {q[j] : j \in 1..Len(q)}
 Scratch == "scratch"
 NoCfg == "-"
-Grammars == {Flag[c].grammar : c \in Cfgs}
-FileNames(g) == Inputs[g] \cup {Scratch}
 
-VARIABLES gp, cache, mms, scratch, n, op
+\* Pool is substituted by an operator that parses a JSON file; TLC evaluates such a substitution
+\* again at every use, whereas a zero-arity definition is evaluated once.  Everything below goes
+\* through TP.
+TP == Pool
+TFlag == TP.flag
+TCfgs == DOMAIN TFlag
+TGrammars == {TFlag[c].grammar : c \in TCfgs}
+TInputs == [g \in TGrammars |-> Range(TP.inputs[g])]
+TWInputs == [g \in TGrammars |-> Range(TP.winputs[g])]
+TWInit == TP.winit
+TDepG == Range(TP.depgrammars)
+TDepName == TP.depname
+TFresh == TP.fresh
+TFreshMM == TP.freshmm
+TAlt == TP.alt
+TNested == [g \in TGrammars |-> [i \in TInputs[g] |-> Range(TP.nested[g][i])]]
+TDefs == [g \in TGrammars |-> [i \in TInputs[g] |-> Range(TP.defs[g][i])]]
+TUnres == [g \in TGrammars |-> [i \in TInputs[g] |-> Range(TP.unres[g][i])]]
+TNImp == TP.nimp
+TSlots == 1..TP.slots
+MaxOps == TP.maxops
+TDev == Range(TP.dev)
+TBreak == Range(TP.brk)
 
-shared == <<gp, cache, mms, scratch, n>>
-vars == <<gp, cache, mms, scratch, n, op>>
+Grammars == TGrammars
+FileNames(g) == TInputs[g] \cup {Scratch}
+
+VARIABLES gp, cache, mms, scratch, dep, n, op
+
+shared == <<gp, cache, mms, scratch, dep, n>>
+vars == <<gp, cache, mms, scratch, dep, n, op>>
 
 FreeSlot == [cfg |-> NoCfg, inst |-> {}, dirty |-> {}, instr |-> 0, repo |-> {}]
 NewSlot(c) == [cfg |-> c, inst |-> {}, dirty |-> {}, instr |-> 0, repo |-> {}]
 
 Live(s) == mms[s].cfg # NoCfg
 Res(k, d, i) == [kind |-> k, dig |-> d, ident |-> i]
-Rec(nm, s, a, i, r) == op' = [name |-> nm, slot |-> s, arg |-> a, inp |-> i, res |-> r]
+Rec(nm, s, a, i, w, r) == op' = [name |-> nm, slot |-> s, arg |-> a, inp |-> i, w |-> w, res |-> r]
 
 Init == /\ gp = [d \in {"false", "true"} |-> "none"]
         /\ cache = {}
-        /\ mms = [s \in Slots |-> FreeSlot]
-        /\ scratch = [g \in Grammars |-> "valid"]
+        /\ mms = [s \in TSlots |-> FreeSlot]
+        /\ scratch = [g \in Grammars |-> TWInit[g]]
+        /\ dep = [g \in TDepG |-> "good"]
         /\ n = 0
-        /\ op = [name |-> "init", slot |-> 0, arg |-> "-", inp |-> "-", res |-> Res("none", "-", 0)]
+        /\ op = [name |-> "init", slot |-> 0, arg |-> "-", inp |-> "-", w |-> "-", res |-> Res("none", "-", 0)]
 
 ----------------------------------------------------------------------------
 \* metamodel_from_str(grammar, **options): the grammar is parsed by the cached
@@ -87,27 +117,35 @@ Init == /\ gp = [d \in {"false", "true"} |-> "none"]
 \* if there is none yet for the debug flag.
 NewMM(s, c) ==
   /\ ~Live(s)
-  /\ gp' = [gp EXCEPT !["false"] = IF @ = "none" THEN (IF Flag[c].memo THEN "memo" ELSE "plain") ELSE @]
+  /\ gp' = [gp EXCEPT !["false"] = IF @ = "none" THEN (IF TFlag[c].memo THEN "memo" ELSE "plain") ELSE @]
   /\ mms' = [mms EXCEPT ![s] = NewSlot(c)]
   /\ n' = n + 1
-  /\ Rec("NewMM", s, c, "-", Res("mm", FreshMM[c], 0))
-  /\ UNCHANGED <<cache, scratch>>
+  /\ Rec("NewMM", s, c, "-", "-", Res("mm", TFreshMM[c], 0))
+  /\ UNCHANGED <<cache, scratch, dep>>
 
 \* the last reference to the metamodel is dropped
 DropMM(s) ==
   /\ Live(s)
   /\ mms' = [mms EXCEPT ![s] = FreeSlot]
   /\ n' = n + 1
-  /\ Rec("DropMM", s, "-", "-", Res("none", "-", 0))
-  /\ UNCHANGED <<gp, cache, scratch>>
+  /\ Rec("DropMM", s, "-", "-", "-", Res("none", "-", 0))
+  /\ UNCHANGED <<gp, cache, scratch, dep>>
 
 \* the mutable file of grammar directory g gets the text of input i
 WriteFile(g, i) ==
-  /\ i \in WInputs[g] /\ scratch[g] # i
+  /\ i \in TWInputs[g] /\ scratch[g] # i
   /\ scratch' = [scratch EXCEPT ![g] = i]
   /\ n' = n + 1
-  /\ Rec("WriteFile", 0, g, i, Res("none", "-", 0))
-  /\ UNCHANGED <<gp, cache, mms>>
+  /\ Rec("WriteFile", 0, g, i, "-", Res("none", "-", 0))
+  /\ UNCHANGED <<gp, cache, mms, dep>>
+
+\* the mutable library file of grammar directory g is broken / repaired
+WriteDep(g, w) ==
+  /\ g \in TDepG /\ w \in {"good", "bad"} /\ dep[g] # w
+  /\ dep' = [dep EXCEPT ![g] = w]
+  /\ n' = n + 1
+  /\ Rec("WriteDep", 0, g, w, "-", Res("none", "-", 0))
+  /\ UNCHANGED <<gp, cache, mms, scratch>>
 
 ----------------------------------------------------------------------------
 \* One load.  mode "str": f is the input itself; mode "file": f is a file name.
@@ -118,33 +156,41 @@ RepoEntry(m, f) == CHOOSE e \in m.repo : e.file = f
 
 \* what the parser that performs the load sees of the blueprint's _instances:
 \* a clone starts with an empty index
-ViewInst(m) == IF "NoClone" \in Break \/ "KeepInstances" \in Break THEN m.inst ELSE {}
+ViewInst(m) == IF "NoClone" \in TBreak \/ "KeepInstances" \in TBreak THEN m.inst ELSE {}
 
 \* packrat entries of other parses that a memoizing parser would find
 ViewCache(g, i) == cache \ {<<g, i>>}
 
-Hit(m, c, mode, f) == mode = "file" /\ Flag[c].grepo /\ f \in RepoFiles(m)
+Hit(m, c, mode, f) == mode = "file" /\ TFlag[c].grepo /\ f \in RepoFiles(m)
+
+\* The content of the mutable library file this load sees: the file itself, unless the
+\* metamodel's global repository already holds a model of it (then that model is used,
+\* whatever the file says now -- C17).
+World(m, c, g) ==
+  IF g \notin TDepG THEN "good"
+  ELSE IF TFlag[c].grepo /\ TDepName[g] \in RepoFiles(m) THEN RepoEntry(m, TDepName[g]).w
+  ELSE dep[g]
 
 Result(m, c, g, i, mode, f) ==
-  LET base == Fresh[c][i][mode] IN
+  LET base == TFresh[c][i][mode][World(m, c, g)] IN
   IF Hit(m, c, mode, f)
     THEN Res("model", RepoEntry(m, f).dig, RepoEntry(m, f).k)        \* C17 CacheHit: the same model object as before
-  ELSE IF Flag[c].memo /\ ViewCache(g, i) # {}
+  ELSE IF TFlag[c].memo /\ ViewCache(g, i) # {}
     THEN Res("corrupt", "tainted", 0)                                 \* stale packrat entries answer for another input
-  ELSE IF base.kind = "unknown" /\ Flag[c].inst /\ Unres[g][i] # {} /\ Unres[g][i] \subseteq ViewInst(m)
+  ELSE IF base.kind = "unknown" /\ TFlag[c].inst /\ TUnres[g][i] # {} /\ TUnres[g][i] \subseteq ViewInst(m)
     THEN Res("model", "tainted", 0)                                   \* resolved against objects of an earlier load
-  ELSE IF /\ "NestedLoadFinalizesOuterUnlessCached" \in Dev
-          /\ Flag[c].grepo /\ mode = "file"
-          /\ Nested[g][i] # {} /\ Nested[g][i] \subseteq RepoFiles(m)
-    THEN Res(Alt[c][i].kind, Alt[c][i].dig, 0)                        \* nested main loads are cache hits: the outer load is left alone
+  ELSE IF /\ "NestedLoadFinalizesOuterUnlessCached" \in TDev
+          /\ TFlag[c].grepo /\ mode = "file"
+          /\ TNested[g][i] # {} /\ TNested[g][i] \subseteq RepoFiles(m)
+    THEN Res(TAlt[c][i].kind, TAlt[c][i].dig, 0)                        \* nested main loads are cache hits: the outer load is left alone
   ELSE Res(base.kind, base.dig, 0)
 
 \* how many instrumentation levels a load leaves behind on the user classes
 Leak(c, g, i, mode, r) ==
-  IF ~Flag[c].classes THEN 0
-  ELSE (IF "ImportedParsersNotRestoredOnFailure" \in Dev /\ r.kind = "unknown" /\ mode = "file"
-          THEN NImp[g][i] ELSE 0)
-     + (IF "NoRestoreOnFailure" \in Break /\ r.kind = "unknown" THEN 1 ELSE 0)
+  IF ~TFlag[c].classes THEN 0
+  ELSE (IF "ImportedParsersNotRestoredOnFailure" \in TDev /\ r.kind = "unknown" /\ mode = "file"
+          THEN TNImp[g][i] ELSE 0)
+     + (IF "NoRestoreOnFailure" \in TBreak /\ r.kind = "unknown" THEN 1 ELSE 0)
 
 \* The instrumentation counter is incremented after the main text has been parsed
 \* and decremented (if positive) on the failure path; a load whose own text does
@@ -152,51 +198,54 @@ Leak(c, g, i, mode, r) ==
 \* counter (always 0 between calls) this is invisible; it is what removes one
 \* leaked level again under ImportedParsersNotRestoredOnFailure.
 Unmatched(c, g, i, r) ==
-  Flag[c].classes /\ r.kind = "syntax" /\ NImp[g][i] = 0 /\ Nested[g][i] = {}
+  TFlag[c].classes /\ r.kind = "syntax" /\ TNImp[g][i] = 0 /\ TNested[g][i] = {}
 
 Load(nm, s, mode, f) ==
   /\ Live(s)
   /\ LET m == mms[s]
          c == m.cfg
-         g == Flag[c].grammar
+         g == TFlag[c].grammar
          i == Content(g, mode, f)
          r == Result(m, c, g, i, mode, f)
          hit == Hit(m, c, mode, f)
          parsed == r.kind # "syntax"          \* the object graph was built
-         keep == "NoClone" \in Break \/ "KeepInstances" \in Break
-         inst2 == IF keep /\ parsed /\ ~hit THEN m.inst \cup Defs[g][i] ELSE m.inst
+         keep == "NoClone" \in TBreak \/ "KeepInstances" \in TBreak
+         inst2 == IF keep /\ parsed /\ ~hit THEN m.inst \cup TDefs[g][i] ELSE m.inst
          dirty2 == m.dirty
                    \cup (IF inst2 # {} THEN {"_instances"} ELSE {})
-                   \cup (IF ("NoClone" \in Break \/ "KeepCrossrefs" \in Break) /\ parsed /\ ~hit /\ Defs[g][i] # {}
+                   \cup (IF ("NoClone" \in TBreak \/ "KeepCrossrefs" \in TBreak) /\ parsed /\ ~hit /\ TDefs[g][i] # {}
                            THEN {"_crossrefs"} ELSE {})
-                   \cup (IF "NoClone" \in Break /\ ~hit THEN {"input"} ELSE {})
-         libs == {[file |-> l, k |-> 0, dig |-> "-", inp |-> "-"] :
-                      l \in {x \in Range(Fresh[c][i][mode].libs) : x \notin RepoFiles(m)}}
+                   \cup (IF "NoClone" \in TBreak /\ ~hit THEN {"input"} ELSE {})
+         w == World(m, c, g)
+         libs == {[file |-> l, k |-> 0, dig |-> "-", inp |-> "-",
+                   w |-> IF g \in TDepG /\ l = TDepName[g] THEN dep[g] ELSE "-"] :
+                      l \in {x \in Range(TFresh[c][i][mode][w].libs) : x \notin RepoFiles(m)}}
          own == IF r.kind = "model" /\ mode = "file"
-                  THEN {[file |-> f, k |-> n + 1, dig |-> r.dig, inp |-> i]} ELSE {}
-         repo2 == IF Flag[c].grepo /\ ~hit THEN m.repo \cup libs \cup own ELSE m.repo
-     IN /\ f \in (IF mode = "file" THEN FileNames(g) ELSE Inputs[g])
+                  THEN {[file |-> f, k |-> n + 1, dig |-> r.dig, inp |-> i, w |-> w]} ELSE {}
+         repo2 == IF TFlag[c].grepo /\ ~hit THEN m.repo \cup libs \cup own ELSE m.repo
+     IN /\ f \in (IF mode = "file" THEN FileNames(g) ELSE TInputs[g])
         /\ mms' = [mms EXCEPT ![s] = [cfg |-> c, inst |-> inst2, dirty |-> dirty2,
                                       instr |-> IF hit THEN m.instr
                                                 ELSE IF Unmatched(c, g, i, r) /\ m.instr > 0 THEN m.instr - 1
                                                 ELSE m.instr + Leak(c, g, i, mode, r),
                                       repo |-> repo2]]
-        /\ cache' = IF "NoCacheClear" \in Break /\ Flag[c].memo /\ ~hit THEN cache \cup {<<g, i>>} ELSE cache
-        /\ Rec(nm, s, f, i, r)
+        /\ cache' = IF "NoCacheClear" \in TBreak /\ TFlag[c].memo /\ ~hit THEN cache \cup {<<g, i>>} ELSE cache
+        /\ Rec(nm, s, f, i, w, r)
   /\ n' = n + 1
-  /\ UNCHANGED <<gp, scratch>>
+  /\ UNCHANGED <<gp, scratch, dep>>
 
 LoadStr(s, i) == Load("LoadStr", s, "str", i)
 LoadFile(s, f) == Load("LoadFile", s, "file", f)
 
-AllInputs == UNION {Inputs[g] : g \in Grammars}
+AllInputs == UNION {TInputs[g] : g \in Grammars}
 
 Next ==
-  \/ \E s \in Slots, c \in Cfgs : NewMM(s, c)
-  \/ \E s \in Slots : DropMM(s)
+  \/ \E s \in TSlots, c \in TCfgs : NewMM(s, c)
+  \/ \E s \in TSlots : DropMM(s)
   \/ \E g \in Grammars, i \in AllInputs : WriteFile(g, i)
-  \/ \E s \in Slots, i \in AllInputs : LoadStr(s, i)
-  \/ \E s \in Slots, f \in AllInputs \cup {Scratch} : LoadFile(s, f)
+  \/ \E g \in TDepG, w \in {"good", "bad"} : WriteDep(g, w)
+  \/ \E s \in TSlots, i \in AllInputs : LoadStr(s, i)
+  \/ \E s \in TSlots, f \in AllInputs \cup {Scratch} : LoadFile(s, f)
 
 Spec == Init /\ [][Next]_vars
 
@@ -215,28 +264,32 @@ OutcomeIsFresh ==
     LET m == mms[op.slot]
         c == m.cfg
     IN IF op.res.ident = 0
-       THEN /\ op.res.kind = Fresh[c][op.inp][Mode].kind
-            /\ op.res.dig = Fresh[c][op.inp][Mode].dig
-       ELSE /\ Flag[c].grepo /\ Mode = "file"
+       THEN /\ op.res.kind = TFresh[c][op.inp][Mode][op.w].kind
+            /\ op.res.dig = TFresh[c][op.inp][Mode][op.w].dig
+            \* the library content the load saw is the file's, or that of a cached model of it
+            /\ LET g == TFlag[c].grammar IN
+               g \in TDepG => \/ op.w = dep[g]
+                              \/ (TFlag[c].grepo /\ \E e \in m.repo : e.file = TDepName[g] /\ e.w = op.w)
+       ELSE /\ TFlag[c].grepo /\ Mode = "file"
             /\ \E e \in m.repo : /\ e.file = op.arg /\ e.k = op.res.ident /\ e.k < n
                                  /\ op.res.kind = "model"
-                                 /\ op.res.kind = Fresh[c][e.inp]["file"].kind
-                                 /\ op.res.dig = Fresh[c][e.inp]["file"].dig
+                                 /\ op.res.kind = TFresh[c][e.inp]["file"][e.w].kind
+                                 /\ op.res.dig = TFresh[c][e.inp]["file"][e.w].dig
 
 \* a model identity is handed out again only by a global repository
-IdentOnlyFromRepo == op.res.ident # 0 => (op.name = "LoadFile" /\ Flag[mms[op.slot].cfg].grepo)
+IdentOnlyFromRepo == op.res.ident # 0 => (op.name = "LoadFile" /\ TFlag[mms[op.slot].cfg].grepo)
 
 \* the inductive reason: between calls nothing of a load is left in the shared
 \* parser state, the packrat tables or the class instrumentation
 SharedQuiescent ==
   /\ cache = {}
-  /\ \A s \in Slots : Live(s) => mms[s].inst = {} /\ mms[s].dirty = {} /\ mms[s].instr = 0
+  /\ \A s \in TSlots : Live(s) => mms[s].inst = {} /\ mms[s].dirty = {} /\ mms[s].instr = 0
 
 \* repositories exist only with global_repository=True, hold one entry per file,
 \* and entries name calls of the past
 RepoSane ==
-  \A s \in Slots :
-    /\ (~Live(s) \/ ~Flag[mms[s].cfg].grepo) => mms[s].repo = {}
+  \A s \in TSlots :
+    /\ (~Live(s) \/ ~TFlag[mms[s].cfg].grepo) => mms[s].repo = {}
     /\ \A e1, e2 \in mms[s].repo : e1.file = e2.file => e1 = e2
     /\ \A e \in mms[s].repo : e.k <= n
 
@@ -246,15 +299,15 @@ GrammarParserSticky == [][gp["false"] # "none" => gp' = gp]_vars
 \* a repository only grows while its metamodel lives, and a cached file is
 \* never loaded again
 RepoMonotone ==
-  [][\A s \in Slots : (Live(s) /\ mms'[s].cfg = mms[s].cfg /\ op'.name # "NewMM")
+  [][\A s \in TSlots : (Live(s) /\ mms'[s].cfg = mms[s].cfg /\ op'.name # "NewMM")
                         => mms[s].repo \subseteq mms'[s].repo]_vars
 
 \* a call leaves every other metamodel alone
-OthersUntouched == [][\A s \in Slots : s # op'.slot => mms'[s] = mms[s]]_vars
+OthersUntouched == [][\A s \in TSlots : s # op'.slot => mms'[s] = mms[s]]_vars
 
 ----------------------------------------------------------------------------
 \* for (S->I): one line per step of a simulated history, with the outcome the
 \* specification prescribes
 EmitStep == PrintT("STEP|" \o ToJson([lvl |-> TLCGet("level"), name |-> op'.name, slot |-> op'.slot,
-                                      arg |-> op'.arg, inp |-> op'.inp, res |-> op'.res]))
+                                      arg |-> op'.arg, inp |-> op'.inp, w |-> op'.w, res |-> op'.res]))
 =============================================================================
